@@ -81,6 +81,7 @@ type FnEnc struct {
 	guard    map[*ssa.BasicBlock]string
 	outState map[*ssa.BasicBlock]*State
 	curBlock *ssa.BasicBlock
+	curIdx   int // index of the instruction being encoded in curBlock
 	curGuard string
 	st       *State
 	st0      *State
@@ -253,9 +254,17 @@ func (e *FnEnc) havocAll() {
 	defer e.privRestore(snaps)
 	allocBefore := e.heapArr("$alloc", "(Array Int Bool)")
 	e.nepoch++
+	prev := e.st.heap
 	e.st.heap = map[string]string{}
 	e.st.epoch = e.nepoch
 	e.st.heap["$alloc"] = allocBefore
+	for name, cur := range prev {
+		// not locations a callee can reach: the state of this function's map iterators, and the field arrays
+		// of stack structs whose address never leaves the function (localobj.go)
+		if strings.HasPrefix(name, "R/") || strings.HasPrefix(name, "H/local:") {
+			e.st.heap[name] = cur
+		}
+	}
 	e.growAlloc()
 	for i, a := range imm {
 		nw := e.heapArr(a.name, a.sort)
